@@ -99,6 +99,7 @@ type TaskResult struct {
 	MaxQ     float64
 	Instrs   int
 	Forks    int
+	Merged   int
 	Funcs    map[*ssa.Function]bool
 	Wall     float64
 	Restarts int
@@ -175,6 +176,14 @@ func runTask(eng *Engine, t *Task, solverBin string, timeout time.Duration, unwi
 	in := &Interp{eng: eng, prog: eng.prog, tf: NewTF(), sol: sol, regIdx: map[*ssa.Function]map[ssa.Value]int{}, intrC: map[*ssa.Function]intrinsicFn{},
 		unwind: unwind, presets: t.Presets, funcs: map[*ssa.Function]bool{}, maxConcr: 64, verbose: verbose, stubs: t.Stubs, sampleOK: sampleOK, second: second,
 		stepCap: 50_000_000, opts: map[string]bool{}}
+	if verbose || os.Getenv("VERIF_FORKSITES") != "" {
+		in.forkSites = map[string]int{}
+		defer func() {
+			for k, v := range in.forkSites {
+				fmt.Printf("FORKSITE %6d %s\n", v, k)
+			}
+		}()
+	}
 	if t.Entry.MaxConcr > 0 {
 		in.maxConcr = t.Entry.MaxConcr
 	}
@@ -189,13 +198,14 @@ func runTask(eng *Engine, t *Task, solverBin string, timeout time.Duration, unwi
 		tr.Queries, tr.Sat, tr.Unsat, tr.Unknown = sol.Queries, sol.Sat, sol.Unsat, sol.Unknown
 		tr.SolverS, tr.MaxQ = sol.Time.Seconds(), sol.MaxQuery.Seconds()
 		tr.Instrs, tr.Forks, tr.Funcs = in.nInstr, in.nForks, in.funcs
+		tr.Merged = in.nMerged
 		tr.Wall = time.Since(t0).Seconds()
 		tr.Restarts = sol.Restarts
 	}()
 	st := newState()
 	in.pushFrame(st, t.Fn, nil, nil)
 	sol.Push()
-	in.Explore(st)
+	in.Explore(st, 0)
 	sol.Pop()
 	return
 }
